@@ -137,7 +137,16 @@ def rule_T2(ctx, F):
         ok = False
         if e[0] == "call" and norm_path(e[1]).startswith("constant_time_eq::constant_time_eq") and len(e[2]) == 2:
             a, b = e[2]
-            strip = lambda x: x[1] if (isinstance(x, tuple) and x[0] == "cast") else x
+            def strip(x):
+                # casts, `.as_slice()` / `.as_bytes()` / `[..]` views of the 32 bytes are the bytes themselves
+                while isinstance(x, tuple) and x:
+                    if x[0] == "cast":
+                        x = x[1]
+                    elif x[0] == "call" and len(x[2]) == 1 and (x[1] in ("Hash::as_slice", "Hash::as_bytes") or norm_path(x[1]).endswith("::as_slice")):
+                        x = x[2][0] if x[1] not in ("Hash::as_slice", "Hash::as_bytes") else ("path", x[2][0], ("0",))
+                    else:
+                        break
+                return val(x) if isinstance(x, tuple) else x
             a, b = strip(a), strip(b)
             ok = (a == S and b in (O1, O2)) or (b == S and a in (O1, O2))
             if "[u8]>" in p:  # slices need the length-aware comparison
@@ -206,7 +215,11 @@ def rule_T3_hash(ctx, F):
     oks = [e for b, g, e in ret_alternatives(fn) if e[0] == "adt" and e[2] == "Ok"]
     want = ("adt", W(), "Ok", ("0",), (P.call("Hash::from_bytes", ("path", ("call", name_has("Try>::branch"), (W("conv"),)), (("as", "Continue"), "0"))),))
     m = unify(want, oks[0]) if len(oks) == 1 else None
-    ctx.ob(m is not None and "TryInto" in m["conv"][1], "from_slice-ok-value", fn.loc, "Ok value = %s" % (show(oks[0])[:200] if oks else "none"))
+    okv = m is not None and "TryInto" in m["conv"][1]
+    if not okv and oks:
+        # the same through an explicit match / map on the conversion's result: every Ok carries from_bytes(<the converted array>)
+        okv = all(o[4] and find_sub(o[4][0], ("call", "Hash::from_bytes", (W(),))) is not None and any("TryInto" in show(c_) or "TryFrom" in show(c_) for c_ in calls) for o in oks)
+    ctx.ob(okv, "from_slice-ok-value", fn.loc, "Ok value = %s" % (show(oks[0])[:200] if oks else "none"))
     ret = fn.j.get("ret", "")
     ctx.ob("TryFromSliceError" in ret, "from_slice-error-type", fn.loc, "return type %s" % ret)
 
